@@ -170,7 +170,89 @@ fn weights_case(d: usize, size: usize, mixed: bool, mode: VerifyAction) -> Box<d
                 }
             }
         }
+        // (2') ... and so does moving an amount from one response scalar to another of the same member (a weight that sees only
+        // the sum of some responses, or any other symmetric digest of them, is constant along such a move)
+        for i in 0..size {
+            let j = (i + 1) % size;
+            let base_ratio = w[i] * w[j].invert();
+            let positions = mutate::scalar_positions(&batch[i].rp);
+            for a in 0..positions.len() {
+                for b in (a + 1)..positions.len() {
+                    for (da, db) in [(Scalar::ONE, -Scalar::ONE), (Scalar::from(5u8), -Scalar::from(5u8))] {
+                        res.transitions += 1;
+                        let mut b2 = batch.clone();
+                        bump(&mut b2[i].rp, &positions[a], da);
+                        bump(&mut b2[i].rp, &positions[b], db);
+                        let o = observe(&b2);
+                        res.executions += 1;
+                        res.validated += 1;
+                        match o.weights {
+                            Some(w2) if w2[j] != Scalar::ZERO => {
+                                *res.outcome_counter("ratio-comparisons") += 1;
+                                if w2[i] * w2[j].invert() == base_ratio {
+                                    res.violate(
+                                        format!("ratio[{},{}]/member{}.{:?}->{:?}", i, j, i, positions[a], positions[b]),
+                                        format!("w_{}/w_{} does not change when an amount is moved from response {:?} to response {:?} of member {}", i, j, positions[b], positions[a], i),
+                                    );
+                                }
+                            },
+                            _ => res.violate(format!("ratio[{},{}]/member{}.{:?}->{:?}", i, j, i, positions[a], positions[b]), "weight vanished or no comparison reached"),
+                        }
+                    }
+                }
+            }
+        }
         res.sample = Some(json!({"d": d, "size": size, "mixed": mixed}));
+        res
+    })
+}
+
+/// A batch beyond the chunk limit: the weights of the members of a LATER chunk depend on the responses of that chunk
+/// (members 0..255 are plain valid proofs, members 256 and 257 carry markers; a response of member 257 is changed)
+fn late_chunk_case(mode: VerifyAction) -> Box<dyn Case> {
+    case(format!("late-chunk/{}", mode_name(mode)), move |_v| {
+        fg::clear_intern();
+        let mut res = CaseResult::new("explored");
+        let mut batch: Vec<Member> = (0..256).map(|p| plain_member(p, 1, 1)).collect();
+        batch.push(member(256, 1, 1, "late"));
+        batch.push(member(257, 1, 1, "late"));
+        let weights_of = |b: &[Member]| -> Option<(Scalar, Scalar)> {
+            let o = observe_mode(b, mode);
+            let r = o.residual?;
+            Some((r.coeff(b[256].marker), r.coeff(b[257].marker)))
+        };
+        let base = weights_of(&batch);
+        res.executions += 1;
+        let (w0, w1) = match base {
+            Some((a, b)) if a != Scalar::ZERO && b != Scalar::ZERO => (a, b),
+            _ => {
+                // the first chunk was not accepted or nothing was compared: other properties' findings
+                res.outcome = "no-compared-element(skipped)".into();
+                return res;
+            },
+        };
+        let base_ratio = w0 * w1.invert();
+        for who in [256usize, 257] {
+            for pos in mutate::scalar_positions(&batch[who].rp) {
+                res.transitions += 1;
+                let mut b2 = batch.clone();
+                bump(&mut b2[who].rp, &pos, Scalar::ONE);
+                res.executions += 1;
+                res.validated += 1;
+                match weights_of(&b2) {
+                    Some((a, b)) if b != Scalar::ZERO => {
+                        *res.outcome_counter("ratio-comparisons") += 1;
+                        if a * b.invert() == base_ratio {
+                            res.violate(
+                                format!("member{}.{:?}", who, pos),
+                                format!("w_256/w_257 (second chunk of a 258-member batch) does not change when response {:?} of member {} changes", pos, who),
+                            );
+                        }
+                    },
+                    _ => res.violate(format!("member{}.{:?}", who, pos), "weight vanished or no comparison reached"),
+                }
+            }
+        }
         res
     })
 }
@@ -402,7 +484,7 @@ pub fn run(rep: &mut Report) {
     rep.rule = "batches of 2..4 marked members (bit length 2, every extension degree 1..6, one mixed-aggregation batch, both verifying modes, \
                 and batches in which every member occurs twice): weights read as \
                 marker coefficients of the compared element; (1) every weight nonzero and the compared element == sum_i w_i x reference \
-                relation_i; (2) every ordered pair (i,j) x every response scalar of either member: +1 changes w_i/w_j; (3) adaptive \
+                relation_i; (2) every ordered pair (i,j) x every response scalar of either member: +1 changes w_i/w_j, and so does moving an amount between any two response scalars of one member; the same for members 256 / 257 of a 258-member batch (weights of a later chunk); (3) adaptive \
                 cancellation histories of three runs for every ordered pair and blinding coordinate k, on otherwise valid members: \
                 runs A and B read each member's factor from a single shifted response, run C submits offsets that would cancel if \
                 those factors were used again (plain, identical proofs, reversed order; both modes) and must be rejected with a \
@@ -435,6 +517,9 @@ pub fn run(rep: &mut Report) {
                 }
             }
         }
+    }
+    for mode in [VerifyAction::VerifyOnly, VerifyAction::RecoverAndVerify] {
+        cases.push(late_chunk_case(mode));
     }
     for d in [1usize, 3] {
         for size in [2usize, 3] {
